@@ -39,7 +39,22 @@ def ops_len(body):
         t = b["term"]
         if t["k"] == "call" and (t["ncallee"] or "").endswith("BTreeSet::len") and op_local(t["args"][0]) in Taint(body).closure(reads):
             out.add(t["d"][0])
-    return Taint(body).closure(out)
+    # also when the length travels as a component of a tuple (`match (self.ops.len(), entry.len()) { (n, _) if n >= MAX => … }`)
+    tup = set()
+    for b in body.blocks:
+        for st in b["stmts"]:
+            if st["rv"]["k"] == "agg" and st["rv"].get("ak") == "tuple" and len(st["d"]) == 1:
+                for i_, o in enumerate(st["rv"]["ops"]):
+                    if op_local(o) in Taint(body).closure(out):
+                        tup.add((st["d"][0], ".%d" % i_))
+    more = set()
+    for b in body.blocks:
+        for st in b["stmts"]:
+            rv = st["rv"]
+            p = rv["a"][1] if rv["k"] == "use" and rv["a"][0] in ("cp", "mv") else None
+            if p and len(p) == 2 and (p[0], p[1]) in tup and len(st["d"]) == 1:
+                more.add(st["d"][0])
+    return Taint(body).closure(out | more)
 
 
 def accept_relation(F, body, sink_blocks, lens):
@@ -109,9 +124,9 @@ def register_rules(R, pfx="C06"):
                     ok = False
                     R.viol(pfx + ".ops.mutator", "mutator:%s->%s" % (R.root_path(b), t["ncallee"]),
                            "SignedRegister.ops is mutated through %s in %s (only BTreeSet::extend/insert keep merge a set union)" % (t["ncallee"], R.root_path(b)), b, t["l"])
-    R.inst(pfx + ".ops.mutator", "K2 mutator whitelist", "ops is only ever extended/inserted into (grow-only set ⇒ merge is union)", n, ok and n >= 3)
-    if n < 3:
-        R.viol(pfx + ".ops.mutator", "instance-floor", "only %d mutator calls on ops found (floor 3)" % n)
+    R.inst(pfx + ".ops.mutator", "K2 mutator whitelist", "ops is only ever extended/inserted into (grow-only set ⇒ merge is union)", n, ok and n >= 2)
+    if n < 2:   # three on the pinned tree; two when both merges share a helper
+        R.viol(pfx + ".ops.mutator", "instance-floor", "only %d mutator calls on ops found (floor 2)" % n)
 
     # (2) gates
     G_MERGEABLE = CallGuard([RG + "::verify_is_mergeable"], ("Ok",), "verify_is_mergeable is Ok")
@@ -507,7 +522,7 @@ def set_semantics_rules(R, pfx="C06"):
         if mb is None:
             continue
         prep(mb)
-        oks = set(RetSink("Ok").blocks(mb))
+        oks = set(RetSink("Ok", computed=True).blocks(mb))      # also the branch form of a forwarded `…​.map(|()| extend)`
         from rules import union_sites
         ext = union_sites(F, mb)[1]     # `ops.extend(other.ops)`, or the end of `for op in other.ops { ops.insert(op) }`
         g = cfg_of(mb)
